@@ -12,26 +12,8 @@ disagreement, and the theorems of `Theorems/C09.lean` (`dx_conversion_*`) are st
 these pinned rows.
 -/
 import DdsModel.Header
+import DdsModel.FormatEnum
 namespace Dds
-
-inductive Format where
-  | R8G8B8_UNORM | B8G8R8_UNORM | R8G8B8A8_UNORM | R8G8B8A8_SNORM | B8G8R8A8_UNORM | B8G8R8X8_UNORM 
-  | B5G6R5_UNORM | B5G5R5A1_UNORM | B4G4R4A4_UNORM | A4B4G4R4_UNORM | R8_SNORM | R8_UNORM 
-  | R8G8_UNORM | R8G8_SNORM | A8_UNORM | R16_UNORM | R16_SNORM | R16G16_UNORM | R16G16_SNORM 
-  | R16G16B16A16_UNORM | R16G16B16A16_SNORM | R10G10B10A2_UNORM | R11G11B10_FLOAT 
-  | R9G9B9E5_SHAREDEXP | R16_FLOAT | R16G16_FLOAT | R16G16B16A16_FLOAT | R32_FLOAT | R32G32_FLOAT 
-  | R32G32B32_FLOAT | R32G32B32A32_FLOAT | R10G10B10_XR_BIAS_A2_UNORM | AYUV | Y410 | Y416 
-  | R1_UNORM | R8G8_B8G8_UNORM | G8R8_G8B8_UNORM | UYVY | YUY2 | Y210 | Y216 | NV12 | P010 | P016 
-  | BC1_UNORM | BC2_UNORM | BC2_UNORM_PREMULTIPLIED_ALPHA | BC3_UNORM 
-  | BC3_UNORM_PREMULTIPLIED_ALPHA | BC4_UNORM | BC4_SNORM | BC5_UNORM | BC5_SNORM | BC6H_UF16 
-  | BC6H_SF16 | BC7_UNORM | ASTC_4X4_UNORM | ASTC_5X4_UNORM | ASTC_5X5_UNORM | ASTC_6X5_UNORM 
-  | ASTC_6X6_UNORM | ASTC_8X5_UNORM | ASTC_8X6_UNORM | ASTC_8X8_UNORM | ASTC_10X5_UNORM 
-  | ASTC_10X6_UNORM | ASTC_10X8_UNORM | ASTC_10X10_UNORM | ASTC_12X10_UNORM | ASTC_12X12_UNORM 
-  | BC3_UNORM_RXGB | BC3_UNORM_NORMAL 
-deriving DecidableEq, Repr, Inhabited
-
-def Format.all : List Format := [
-  .R8G8B8_UNORM, .B8G8R8_UNORM, .R8G8B8A8_UNORM, .R8G8B8A8_SNORM, .B8G8R8A8_UNORM, .B8G8R8X8_UNORM, .B5G6R5_UNORM, .B5G5R5A1_UNORM, .B4G4R4A4_UNORM, .A4B4G4R4_UNORM, .R8_SNORM, .R8_UNORM, .R8G8_UNORM, .R8G8_SNORM, .A8_UNORM, .R16_UNORM, .R16_SNORM, .R16G16_UNORM, .R16G16_SNORM, .R16G16B16A16_UNORM, .R16G16B16A16_SNORM, .R10G10B10A2_UNORM, .R11G11B10_FLOAT, .R9G9B9E5_SHAREDEXP, .R16_FLOAT, .R16G16_FLOAT, .R16G16B16A16_FLOAT, .R32_FLOAT, .R32G32_FLOAT, .R32G32B32_FLOAT, .R32G32B32A32_FLOAT, .R10G10B10_XR_BIAS_A2_UNORM, .AYUV, .Y410, .Y416, .R1_UNORM, .R8G8_B8G8_UNORM, .G8R8_G8B8_UNORM, .UYVY, .YUY2, .Y210, .Y216, .NV12, .P010, .P016, .BC1_UNORM, .BC2_UNORM, .BC2_UNORM_PREMULTIPLIED_ALPHA, .BC3_UNORM, .BC3_UNORM_PREMULTIPLIED_ALPHA, .BC4_UNORM, .BC4_SNORM, .BC5_UNORM, .BC5_SNORM, .BC6H_UF16, .BC6H_SF16, .BC7_UNORM, .ASTC_4X4_UNORM, .ASTC_5X4_UNORM, .ASTC_5X5_UNORM, .ASTC_6X5_UNORM, .ASTC_6X6_UNORM, .ASTC_8X5_UNORM, .ASTC_8X6_UNORM, .ASTC_8X8_UNORM, .ASTC_10X5_UNORM, .ASTC_10X6_UNORM, .ASTC_10X8_UNORM, .ASTC_10X10_UNORM, .ASTC_12X10_UNORM, .ASTC_12X12_UNORM, .BC3_UNORM_RXGB, .BC3_UNORM_NORMAL]
 
 /-- `impl TryFrom<Format> for DxgiFormat` -/
 def Format.toDxgi : Format → Option Nat
